@@ -1,6 +1,6 @@
 #!/bin/bash
 python3 check/setup.py > /dev/null 2>&1
-for sd in 2 3 4 5; do
+for sd in ${SWEEP_SEEDS:-2 3 4 5}; do
   for p in C01 C02 C03 C04 C05 C06 C07 C08 C09 C10 C11 C12 C13 C14 C15 C16 C17; do
     out=$(VERIF_SEED=$sd python3 check/check.py $p --tier quick 2>&1 | grep -v KNOWN | tail -2)
     echo "seed=$sd $p rc=$? :: $out"
